@@ -23,6 +23,8 @@ pub mod gradual;
 mod object;
 pub mod scaling_factor;
 pub mod skills;
+#[cfg(rosu_pp_verif)]
+pub mod verif;
 
 const DIFFICULTY_MULTIPLIER: f64 = 0.0675;
 
